@@ -53,9 +53,9 @@ static inline uint32_t swr(const uint32_t *opp, uint32_t c) { const uint32_t o =
 static inline uint32_t swl(const uint32_t *opp, uint32_t c) { const uint32_t o = opp[nx(c)]; return o == INV ? INV : nx(o); }
 
 struct LiteEncImpl : public MeshEdgebreakerEncoderImplInterface {
-  const CornerTable *ct; const MeshAttributeCornerTable *att[2];
+  const CornerTable *ct; const MeshAttributeCornerTable *att[NA + 1];
   bool Init(MeshEdgebreakerEncoder *) override { return true; }
-  const MeshAttributeCornerTable *GetAttributeCornerTable(int att_id) const override { return (att_id >= 0 && att_id < 2) ? att[att_id] : nullptr; }
+  const MeshAttributeCornerTable *GetAttributeCornerTable(int att_id) const override { return (att_id >= 0 && att_id <= NA) ? att[att_id] : nullptr; }
   const MeshAttributeIndicesEncodingData *GetAttributeEncodingData(int) const override { return nullptr; }
   bool GenerateAttributesEncoder(int32_t) override { return false; }
   bool EncodeAttributesEncoderIdentifier(int32_t) override { return false; }
@@ -127,7 +127,7 @@ extern "C" void h_eb_point_count(void) {
     if (vc[v] == INV) { ++n_iso; continue; }
     verif_assume((((hole_w[0] >> v) & 1) != 0) == (swl(opp, vc[v]) == INV));          // hole flag <=> open fan
     uint32_t cur = vc[v];                                                               // an attribute change inside the fan => the vertex is flagged as on a seam
-    for (int k = 0; k < NF; ++k) { const uint32_t nxt = swr(opp, cur); if (nxt == INV) break; if (a2v[0][nxt] != a2v[0][cur]) verif_assume((seam_w[0][0] >> v) & 1); if (nxt == vc[v]) break; cur = nxt; }
+    for (int k = 0; k < NF; ++k) { const uint32_t nxt = swr(opp, cur); if (nxt == INV) break; for (int i = 0; i < NA; ++i) if (a2v[i][nxt] != a2v[i][cur]) verif_assume((seam_w[i][0] >> v) & 1); if (nxt == vc[v]) break; cur = nxt; }
   }
   ct.num_isolated_vertices_ = (int)n_iso;
   { const uint32_t no = nondet_u32(); verif_assume(no >= 1 && no <= nv); ct.num_original_vertices_ = (int)no; }   // the vertices beyond it are the copies made for non-manifold vertices
@@ -135,18 +135,19 @@ extern "C" void h_eb_point_count(void) {
   uint32_t pt[NC]; MeshFace eface_s[NF];
   for (int c = 0; c < NC; ++c) { pt[c] = nondet_u32(); verif_assume(pt[c] < NC); eface_s[c / 3][c % 3] = PointIndex(pt[c]); }
   for (int c = 0; c < NC; ++c) for (int d = 0; d < NC; ++d) {
-    if (pt[c] == pt[d]) verif_assume(c2v[c] == c2v[d] && a2v[0][c] == a2v[0][d]);     // a point has one position and one attribute value
+    int same_att = 1; for (int i = 0; i < NA; ++i) same_att = same_att && a2v[i][c] == a2v[i][d];
+    if (pt[c] == pt[d]) verif_assume(c2v[c] == c2v[d] && same_att);                   // a point has one position and one value per attribute
 #ifdef DEDUPLICATED_INPUT   // known finding F16 excluded
-    else verif_assume(!(c2v[c] == c2v[d] && a2v[0][c] == a2v[0][d]));                 // deduplicated input: different points differ somewhere
+    else verif_assume(!(c2v[c] == c2v[d] && same_att));                               // deduplicated input: different points differ somewhere
 #endif
   }
   Mesh emesh; verif_adopt(emesh.faces_.vector_, eface_s, NF, NF);
-  PointAttribute eatt[2]; std::unique_ptr<PointAttribute> eatt_slots[2];
+  PointAttribute eatt[NA + 1]; std::unique_ptr<PointAttribute> eatt_slots[NA + 1];
   eatt[0].GeometryAttribute::Init(GeometryAttribute::POSITION, nullptr, 3, DT_FLOAT32, false, 12, 0);
-  eatt[1].GeometryAttribute::Init(GeometryAttribute::GENERIC, nullptr, 1, DT_INT32, false, 4, 0);
-  eatt_slots[0].reset(&eatt[0]); eatt_slots[1].reset(&eatt[1]);
-  verif_adopt(emesh.attributes_, eatt_slots, 2, 2);
-  LiteEncImpl limpl; limpl.ct = &ct; limpl.att[0] = nullptr; limpl.att[1] = &slots[0].connectivity_data;
+  for (int i = 1; i <= NA; ++i) eatt[i].GeometryAttribute::Init(GeometryAttribute::GENERIC, nullptr, 1, DT_INT32, false, 4, 0);
+  for (int i = 0; i <= NA; ++i) eatt_slots[i].reset(&eatt[i]);
+  verif_adopt(emesh.attributes_, eatt_slots, NA + 1, NA + 1);
+  LiteEncImpl limpl; limpl.ct = &ct; limpl.att[0] = nullptr; for (int i = 0; i < NA; ++i) limpl.att[i + 1] = &slots[i].connectivity_data;
   MeshEdgebreakerEncoder enc; enc.mesh_ = &emesh; enc.point_cloud_ = &emesh;
   enc.impl_.reset(&limpl);
   enc.ComputeNumberOfEncodedPoints();
@@ -161,7 +162,7 @@ extern "C" void h_eb_point_count(void) {
     verif_observe(mesh.num_points());
     verif_assert(reported == (uint64_t)mesh.num_points(), "the number of points reported by the encoder equals the number of points the decoder creates");
   }
-  enc.impl_.release(); eatt_slots[0].release(); eatt_slots[1].release(); verif_release(emesh.attributes_); verif_release(emesh.faces_.vector_);
+  enc.impl_.release(); for (int i = 0; i <= NA; ++i) eatt_slots[i].release(); verif_release(emesh.attributes_); verif_release(emesh.faces_.vector_);
   // hand the borrowed storage back before the destructors run
   impl.corner_table_.release();
   verif_release(impl.attribute_data_); verif_release_bits(impl.is_vert_hole_);
